@@ -68,6 +68,19 @@ theorem f_zero_neg_iff (g ρL uL PL ρR uR PR : ℝ) (hPL : 0 < PL) (hPR : 0 < P
   rw [pressureFn_zero (mk_rel g) hPL hPR, not_le]
   constructor <;> intro h <;> linarith
 
+/-- whenever `solve` enters its iterative part (two non-vacuum states, no vacuum generation) the
+pressure equation `f(p) = 0` has exactly one solution `p ≥ 0` (and it is positive): "the" star
+pressure the iteration is after exists and is unique -/
+theorem pressure_root_exists_unique (g ρL uL PL ρR uR PR : ℝ) (hρL : 0 < ρL) (hPL : 0 < PL)
+    (hρR : 0 < ρR) (hPR : 0 < PR)
+    (hnovac : ¬ ((mkConsts g).tdgm1 * soundspeed (mkConsts g) (1.0 / ρL) PL
+          + (mkConsts g).tdgm1 * soundspeed (mkConsts g) (1.0 / ρR) PR ≤ uR - uL)) :
+    ∃! p : ℝ, 0 ≤ p ∧ pressureFn (mkConsts g) ρL uL PL ρR uR PR p = 0 := by
+  have h0 := (f_zero_neg_iff g ρL uL PL ρR uR PR hPL hPR).mpr hnovac
+  obtain ⟨p, hp, hp0⟩ := pressureFn_root (mk_rel g) hρL hPL hρR hPR h0
+  refine ⟨p, ⟨hp.le, hp0⟩, fun q hq => ?_⟩
+  exact (f_strictMono_continuous g ρL uL PL ρR uR PR hρL hPL hρR hPR).2.2 q p hq.1 hp.le hq.2 hp0
+
 /-! ## 2. Brent's method keeps the bracket -/
 
 /-- `brent_bracket`: for EVERY function `F`, every initial bracket with `F Plow · F Phigh ≤ 0`
@@ -324,6 +337,25 @@ theorem fan_right_base_pos (g ρ u P p ustar ξ : ℝ) (hρ : 0 < ρ) (hP : 0 < 
   have hpos : 0 < (p * (1.0 / P)) ^ c.gm1d2g := Real.rpow_pos_of_pos (mul_pos hp hst.Pinv_pos) _
   have hmono : baseR c u a (tailR c a (1.0 / P) ustar p) ≤ baseR c u a ξ := by
     unfold baseR
+    have := div_le_div_of_nonneg_right (mul_le_mul_of_nonneg_left
+      (sub_le_sub_left hξ u) hc.gm1dgp1_pos.le) hst.a_pos.le
+    linarith
+  linarith
+
+/-- the same for the left fan: between head and tail of a left rarefaction with `p* > 0`,
+`u* = u_L - f_L(p*)` -/
+theorem fan_left_base_pos (g ρ u P p ustar ξ : ℝ) (hρ : 0 < ρ) (hP : 0 < P) (hp : 0 < p) :
+    let c := mkConsts g
+    let a := soundspeed c (1.0 / ρ) P
+    StarL c u a (1.0 / P) ustar p → ξ ≤ tailL c a (1.0 / P) ustar p → 0 < baseL c u a ξ := by
+  intro c a hs hξ
+  have hc : CRel c := mk_rel g
+  have hst : StateOK c ρ P (1.0 / P) a := stateOK_of_solve hc hρ hP
+  have h1 : baseL c u a (tailL c a (1.0 / P) ustar p) = (p * (1.0 / P)) ^ c.gm1d2g :=
+    baseL_tail hc hst.a_pos hs
+  have hpos : 0 < (p * (1.0 / P)) ^ c.gm1d2g := Real.rpow_pos_of_pos (mul_pos hp hst.Pinv_pos) _
+  have hmono : baseL c u a (tailL c a (1.0 / P) ustar p) ≤ baseL c u a ξ := by
+    unfold baseL
     have := div_le_div_of_nonneg_right (mul_le_mul_of_nonneg_left
       (sub_le_sub_left hξ u) hc.gm1dgp1_pos.le) hst.a_pos.le
     linarith
